@@ -334,6 +334,14 @@ def _raise_default_value_error(
     raise SchemaParseException(f"Default value <{default}> must match {text}")
 
 
+def _keep_null_namespace(parsed_schema, fullname: str, enclosing_namespace: str):
+    # A named type of the null namespace nested inside a namespaced type must
+    # stay in the null namespace when the parsed schema is parsed again (the
+    # "namespace" attribute is otherwise dropped from parsed schemas)
+    if enclosing_namespace and "." not in fullname:
+        parsed_schema["namespace"] = ""
+
+
 def _maybe_float(value: Any) -> Any:
     try:
         return float(value)
@@ -501,6 +509,7 @@ def _parse_schema(
             named_schemas[fullname] = parsed_schema
 
             parsed_schema["name"] = fullname
+            _keep_null_namespace(parsed_schema, fullname, namespace)
             parsed_schema["symbols"] = schema["symbols"]
 
         elif schema_type == "fixed":
@@ -515,14 +524,17 @@ def _parse_schema(
             named_schemas[fullname] = parsed_schema
 
             parsed_schema["name"] = fullname
+            _keep_null_namespace(parsed_schema, fullname, namespace)
             parsed_schema["size"] = schema["size"]
 
         elif schema_type == "record" or schema_type == "error":
             # records
+            enclosing_namespace = namespace
             namespace, fullname = schema_name(schema, namespace)
             if fullname in names:
                 raise SchemaParseException(f"redefined named type: {fullname}")
             names.add(fullname)
+            _keep_null_namespace(parsed_schema, fullname, enclosing_namespace)
 
             if default is not NO_DEFAULT and not isinstance(default, dict):
                 _raise_default_value_error(default, schema_type, ignore_default_error)
